@@ -288,10 +288,28 @@ def run_method(ctx, fname, mode):
         body = loops[0].body
         arrays0 = {'x': {}}
     for method, p in METHODS.items():
-        def cond(test, st, en, method=method):
+        # the scheme name as the dispatch sees it: re-bindings of `method` before the loops (`method = method.lower()`) are applied
+        mval = method
+        for s_ in f.body:
+            if isinstance(s_, (ast.For, ast.While)):
+                break
+            if isinstance(s_, ast.Assign) and len(s_.targets) == 1 and src(s_.targets[0]) == 'method' and \
+                    {n_.id for n_ in ast.walk(s_.value) if isinstance(n_, ast.Name)} == {'method'}:
+                try:
+                    mval = eval(compile(ast.Expression(body=s_.value), '<method>', 'eval'), {'__builtins__': {}}, {'method': mval})
+                except Exception as e:
+                    raise AnalysisError('%s: cannot evaluate %s' % (fname, src(s_)))
+
+        def cond(test, st, en, method=method, mval=mval):
             t = src(test).replace(' ', '')
             if t.startswith('method=='):
-                return test.comparators[0].value == method
+                return test.comparators[0].value == mval
+            names_ = {n_.id for n_ in ast.walk(test) if isinstance(n_, ast.Name)}
+            if names_ == {'method'} and t != 'methodisNone':
+                try:
+                    return bool(eval(compile(ast.Expression(body=test), '<test>', 'eval'), {'__builtins__': {}}, {'method': mval}))
+                except Exception:
+                    return NotImplemented
             if t == 'methodisNone':
                 return False
             if t == 'h==0':
@@ -315,11 +333,16 @@ def run_method(ctx, fname, mode):
         for e in ps[0].stmts():
             it.step(e.node)
         problems = list(it.problems)
-        if len(it.stencils) != 1:
-            problems.append('%d stencil assignments for method %s' % (len(it.stencils), method))
+        if not it.stencils:
+            problems.append('no stencil assignment for method %s' % method)
             offs = {}
+            ctx.ob('R18.2-orientation', '%s/%s' % (fname, method), False, where,
+                   'the entry written is derivative component x perturbed coordinate', 'nothing is written for this scheme')
         else:
-            tgt, expr = it.stencils[0]
+            # several assignments on the path: the last one is what is reported
+            if len(it.stencils) > 1:
+                ctx.note('%s/%s: %d assignments to the result entry on the path, the last one is analysed' % (fname, method, len(it.stencils)))
+            tgt, expr = it.stencils[-1]
             res = analyse_stencil(it, tgt, expr, mode, coord, comp, p)
             if isinstance(res, tuple):
                 pr, offs = res
@@ -380,8 +403,11 @@ def check_evaluate(ctx):
             raise AnalysisError('anchor vanished: analysis:%s' % fn)
         rets = [s for s in g[0].body if isinstance(s, ast.Return)]
         want = 'SensitivityAnalysis(model).%s(state,**kwargs)' % callee if callee == 'compute_J' else 'SensitivityAnalysis(model).%s(state,param_name,**kwargs)' % callee
-        ctx.ob('R18.3-evaluation-point', fn, len(rets) == 1 and src(rets[0].value).replace(' ', '') == want, ctx.loc('analysis', g[0]),
-               '%s evaluates %s of this model at the given state' % (fn, callee), '')
+        # a helper object named by a local defined once in this function is read through; a module-level / cached object is not
+        defs = {n_: v_ for n_, v_ in util.single_defs(g[0]).items() if v_ is not None}
+        got = src(util.inline(rets[0].value, defs)).replace(' ', '') if len(rets) == 1 else None
+        ctx.ob('R18.3-evaluation-point', fn, got == want, ctx.loc('analysis', g[0]),
+               '%s evaluates %s of a helper built for this model in this call, at the given state' % (fn, callee), 'returns %s' % got)
 
 
 def check(ctx):
